@@ -114,6 +114,12 @@ func (h *Handler) handleRequest(host *packet.Host, p packet.DHCP4, options packe
 		return nil
 	}
 
+	// remember if the session sees the address on another mac, before this request updates the session tables
+	inUse := false
+	if host := h.session.FindIP(reqIP); host != nil && !bytes.Equal(host.MACEntry.MAC, p.CHAddr()) {
+		inUse = true
+	}
+
 	captured := h.session.IsCaptured(p.CHAddr())
 	subnet := h.net1
 	if captured {
@@ -226,6 +232,13 @@ func (h *Handler) handleRequest(host *packet.Host, p packet.DHCP4, options packe
 	default:
 		Logger.Msg("error in request - ignore invalid operation").ByteArray("xid", p.XId()).Uint8("operation", operation).Write()
 		return nil
+	}
+
+	// never confirm an address that the session sees in use by another mac (address conflict on the lan):
+	// the NAK sends the client back to discover, where it gets a conflict free address
+	if inUse {
+		Logger.Msg("request NACK - address in use by another mac").ByteArray("xid", p.XId()).IP("ip", reqIP).Write()
+		return nakPacket(p, subnet.DHCPServer.AsSlice(), clientID)
 	}
 
 	// successful request
